@@ -43,6 +43,7 @@ def check(ctx):
     r06_4_caller(ctx, m)
     r06_5(ctx, m)
     r06_6(ctx)
+    r06_7(ctx, m)
     ctx.not_decided += [
         "that articulation points / biconnected components / the DFS order are the true ones on every graph (C15)",
         "independence from set/dict iteration order inside biccs (hash randomisation) beyond the orientation fix-up",
@@ -385,3 +386,86 @@ def r06_6(ctx):
         if isinstance(n, ast.Compare) and any(isinstance(o, (ast.In, ast.NotIn)) for o in n.ops) and any(norm(c) in ("self", "self.nodes") for c in n.comparators):
             filt.append(norm(n))
     ctx.check(not inside and not filt, "R06.6", rg.where(fl), "links are resolved (node-existence test, add_edge) only after every S line of the file has been read, so the result does not depend on the order of lines", key_of(rg, f"edge-resolution-in-file-loop:{len(inside)}:{filt}"), add_edge_in_loop=len(inside), existence_tests_in_loop=filt)
+
+
+def r06_7(ctx, m):
+    """Components are named by the majority SN of their nodes: per component the running maximum is reset, a tag
+    replaces it exactly when its count is not smaller (or strictly greater) than the running maximum, and the
+    component is filed under that tag."""
+    repo = ctx.repo
+    nc = None
+    for c in walk_own(m.run.node):
+        if isinstance(c, ast.Call):
+            h = repo.resolve_call(m.run, c)
+            if h is not None and h.module is m.mod and any(isinstance(x, ast.For) for x in h.node.body) and h is not m.dec:
+                rets = [r for r in walk_own(h.node) if isinstance(r, ast.Return) and r.value is not None]
+                if rets and any(isinstance(st, ast.Assign) and isinstance(st.targets[0], ast.Subscript) and norm(st.targets[0].value) == norm(rets[-1].value) for st in walk_own(h.node)):
+                    nc = h
+    if nc is None:
+        raise AnalysisError("R06.7", m.run.where(), "cannot find the function that names the components")
+    ctx.analysed_func(nc)
+    outer = [l for l in nc.node.body if isinstance(l, ast.For)]
+    if not outer:
+        raise AnalysisError("R06.7", nc.where(), "no loop over the components")
+    ol = outer[0]
+    inner = [l for l in ol.body if isinstance(l, ast.For)]
+    if not inner:
+        raise AnalysisError("R06.7", nc.where(ol), "no loop over the SN counts of a component")
+    il = inner[0]
+    upd = [st for st in il.body if isinstance(st, ast.If)]
+    if len(upd) != 1 or not isinstance(il.target, ast.Tuple):
+        raise AnalysisError("R06.7", nc.where(il), "majority vote is not a single guarded update over (tag, count) items")
+    tagv, cntv = [norm(e) for e in il.target.elts]
+    asg = [st for st in upd[0].body if isinstance(st, ast.Assign)]
+    names = {}
+    for st in asg:
+        if isinstance(st.targets[0], ast.Tuple) and isinstance(st.value, ast.Tuple):
+            for t_, v_ in zip(st.targets[0].elts, st.value.elts):
+                names[norm(v_)] = norm(t_)
+        else:
+            names[norm(st.value)] = norm(st.targets[0])
+    best_tag, best_cnt = names.get(tagv), names.get(cntv)
+    if best_tag is None or best_cnt is None:
+        ctx.violated("R06.7", nc.where(upd[0]), "the update of the majority vote does not record both the tag and its count", key_of(nc, f"vote-update:{sorted(names.items())}"))
+        return
+
+    def atom_of(e):
+        t = norm(e)
+        return {best_cnt: "best", cntv: "count"}.get(t)
+
+    bad = None
+    for env, scale in ordtab.weak_orderings(["best", "count"], []):
+        try:
+            v = ordtab.Evaluator(env, atom_of, scale).truth(upd[0].test)
+        except ordtab.Unsupported as ex:
+            raise AnalysisError("R06.7", nc.where(upd[0]), f"vote test outside the comparison fragment: {ex}")
+        if env["count"] > env["best"] and not v:
+            bad = "a tag with a larger count does not replace the current majority"
+        if env["count"] < env["best"] and v:
+            bad = "a tag with a smaller count replaces the current majority"
+    ctx.check(bad is None, "R06.7", nc.where(upd[0]), "majority vote: a tag replaces the running majority exactly when its count is larger (ties either way)", key_of(nc, f"vote-table:{norm(upd[0].test)}"), **({"why": bad} if bad else {}))
+    # the running maximum is reset for every component (inside the component loop, before the vote)
+    resets = [st for st in ol.body if isinstance(st, ast.Assign) and norm(st.targets[0]) == best_cnt and const_value(st.value, None) == 0 and ol.body.index(st) < ol.body.index(il)]
+    ctx.check(bool(resets), "R06.7", nc.where(ol), "the running maximum is reset to 0 for every component", key_of(nc, "vote-reset"))
+    # counts: one per node carrying an SN tag, keyed by the SN value
+    stores = [st for st in ol.body if isinstance(st, ast.Assign) and isinstance(st.targets[0], ast.Subscript) and norm(st.targets[0].slice) == best_tag and norm(st.value) == norm(ol.target)]
+    ctx.check(len(stores) == 1, "R06.7", nc.where(ol), "each component is filed under its majority tag", key_of(nc, "vote-store"))
+    cs = None
+    for c in ast.walk(ol):
+        if isinstance(c, ast.Call):
+            h = repo.resolve_call(nc, c)
+            if h is not None and h.module is m.mod and h is not nc:
+                cs = h
+    if cs is not None:
+        ctx.analysed_func(cs)
+        src = norm(cs.node)
+        incs = [st for st in walk_own(cs.node) if isinstance(st, ast.AugAssign) and isinstance(st.op, ast.Add) and const_value(st.value) == 1 and "tags['SN'][1]" in _resolve(cs, st.target)]
+        loops = [l for l in cs.node.body if isinstance(l, ast.For)]
+        ok = len(incs) == 1 and bool(loops) and norm(loops[0].iter) in cs.params
+        ctx.check(ok, "R06.7", cs.where(), "the vote counts every node of the component once under its SN value", key_of(cs, "count-sn"))
+
+
+def _resolve(f, e):
+    from ..core import resolve_expr
+
+    return resolve_expr(f.node, e)
